@@ -43,7 +43,10 @@ P = {'id': 'C11',
               'multipass_merge_sorts',
               'external_sort_multipass_sorts',
               'multipass_chunks_exact_refuted',
-              'co_sort_sorts'],
+              'co_sort_sorts',
+              'kv_sort_keeps_pairs',
+              'merge_tree_merges',
+              'vec_external_sort_sorts'],
  'trusted': ['modelled (M+S): src/algorithms/radix_sort.rs sort_u32_sequential / sort_u64_sequential / AdvancedRadixSort::lsd_radix_sort_sequential '
              '(counts array, exclusive prefix sums, scatter into a zeroed buffer, pass count from the key width resp. the largest key), counting_sort_u32 and '
              'the sort_u32 dispatch, insertion sort; src/algorithms/tournament_tree.rs EnhancedLoserTree as coded (linear scan for the least head; the tree '
